@@ -5,12 +5,13 @@ import Driver.Helpers
 import Driver.MP
 import Driver.Graph
 import Driver.Meio
+import Driver.Serial
 open Lean
 
 namespace Driver
 
 def allHandlers : List (String × Handler) :=
-  Driver.WW.handlers ++ Driver.Sim.handlers ++ Driver.Helpers.handlers ++ Driver.MP.handlers ++ Driver.Graph.handlers ++ Driver.Meio.handlers
+  Driver.WW.handlers ++ Driver.Sim.handlers ++ Driver.Helpers.handlers ++ Driver.MP.handlers ++ Driver.Graph.handlers ++ Driver.Meio.handlers ++ Driver.Serial.handlers
 
 def dispatch (line : String) : String :=
   match Json.parse line with
